@@ -100,7 +100,10 @@ class Seams:
     """Context manager: install counting / faulting shims for one operation.
 
     arm: None or {"kind": "dep-raise", "site": s, "nth": n, "exc": name}
-              or {"kind": "async-crash", "k": k}
+              or {"kind": "async-crash", "k": k}            (k-th matid line event)
+              or {"kind": "async-crash", "file": rel, "kf": n}  (n-th line event inside matid/<rel>:
+                 file-stratified placement, so that the short orchestration code of sbc.py /
+                 cluster.py / classifier.py is hit as often as the hot loops of periodicfinder.py)
     budget: max number of seam crossings before SimHang is raised
     count_lines: run the matid line counter even when no crash is armed
     """
@@ -111,6 +114,7 @@ class Seams:
         self.counts = {}
         self.total = 0
         self.lines = 0
+        self.file_lines = {}  # matid-relative file name -> [line events]
         self.fired = None  # descriptor of the fault that actually fired
         self.observed = {}
         self.count_lines = count_lines or (arm is not None and arm.get("kind") == "async-crash")
@@ -171,27 +175,48 @@ class Seams:
     def _install_tracer(self):
         prefix = matid_dir()
         seams = self
-        k = self.arm["k"] if (self.arm and self.arm.get("kind") == "async-crash") else None
+        crash = self.arm if (self.arm and self.arm.get("kind") == "async-crash") else None
+        k = crash.get("k") if crash else None
+        kfile = crash.get("file") if crash else None
+        kf = crash.get("kf") if crash else None
+        cells = self.file_lines
+        locals_ = {}
 
-        def local(frame, event, arg):
-            if event == "line":
-                seams.lines += 1
-                if k is not None and seams.lines == k and seams.fired is None:
-                    seams.fired = dict(seams.arm)
-                    seams.fired["at"] = "%s:%d" % (
-                        frame.f_code.co_filename[len(prefix):],
-                        frame.f_lineno,
-                    )
-                    raise SimCrash("injected crash at line event %d (%s)" % (k, seams.fired["at"]))
+        def fire(frame, what):
+            seams.fired = dict(seams.arm)
+            seams.fired["at"] = "%s:%d" % (frame.f_code.co_filename[len(prefix):], frame.f_lineno)
+            raise SimCrash("injected crash at %s (%s)" % (what, seams.fired["at"]))
+
+        def make_local(rel):
+            cell = cells.setdefault(rel, [0])
+            watch = kfile is not None and rel == kfile
+
+            def local(frame, event, arg):
+                if event == "line":
+                    seams.lines += 1
+                    cell[0] += 1
+                    if k is not None and seams.lines == k and seams.fired is None:
+                        fire(frame, "line event %d" % k)
+                    if watch and cell[0] == kf and seams.fired is None:
+                        fire(frame, "line event %d of %s" % (kf, rel))
+                return local
+
             return local
 
         def glob(frame, event, arg):
-            if frame.f_code.co_filename.startswith(prefix):
-                return local
+            fn = frame.f_code.co_filename
+            if fn.startswith(prefix):
+                loc = locals_.get(fn)
+                if loc is None:
+                    loc = locals_[fn] = make_local(fn[len(prefix):])
+                return loc
             return None
 
         self._old_trace = sys.gettrace()
         sys.settrace(glob)
+
+    def file_counts(self):
+        return {rel: c[0] for rel, c in sorted(self.file_lines.items()) if c[0] > 0}
 
 
 def legal_faults(counts, allowed_sites=None):
